@@ -12,6 +12,8 @@
   spelling            fix_measurements turns proj given as str / list / tuple into one tuple of attribute names, replaces an
                       omitted query by the identity of size domain.size(proj) (after normalising proj), and returns what it built
   lipschitz-form      per-measurement term == lambda_max(Q^T Q) * size(clique) / size(proj) / noise^2, summed per clique, max taken
+  scan / default idioms   a scan that pops from a list by index keeps the index on the path that pops (exactly-once); a parameter that defaults
+                      to None is read only after its resolution (loss-form)
 Not decided: that eigsh converges; the numeric value of the bound.
 """
 import ast
